@@ -4,7 +4,7 @@
    conditions, parameter groups and statements are rejected.  The tokens of a return type (type_tok)
    have a text different from "(" and ")", which the scan would reject. *)
 From Verif Require Import Base Regex Token TokEngine Headers Blocks Spec HeaderSpec LexShapes Grammar GrammarAll.
-From Verif Require Import GrammarProofsParen GrammarProofsBrace GrammarProofsHeaders GrammarAllProofsWf.
+From Verif Require Import GrammarProofsParen GrammarProofsBrace GrammarProofsHeaders GrammarAllProofsTok.
 From Verif Require Import GrammarAllProofsSel GrammarAllProofsCand GrammarAllProofsItems GrammarAllProofsJava.
 From Coq Require Import Sorted Permutation.
 Open Scope nat_scope.
@@ -99,77 +99,10 @@ Qed.
 Lemma good_function_rettype l : good l cand_function follow_rettype.
 Proof. apply good_function_f; [apply fshift_rettype | apply isuf_rejects_rettype]. Qed.
 
-(* ---------- no candidate in a clause (no parenthesis before the "{") ---------- *)
-Inductive chain : list token -> Prop :=
-| chain_end o B : is_lbrace o = true -> chain (o :: B)
-| chain_cons t W : is_lparen t = false -> chain W -> chain (t :: W).
-
-Lemma chain_ge0 W : chain W -> ge0 W = None.
-Proof.
-  intros [o B Ho|t W' Ht _]; unfold ge0.
-  - rewrite (lbrace_not_lparen o Ho). reflexivity.
-  - rewrite Ht. reflexivity.
-Qed.
-
-Lemma chain_plain W : chain W -> cand_plain W 0 = None.
-Proof.
-  intros [o B Ho|t W' Ht HW]; rewrite cand_plain_0.
-  - rewrite (symbol_not_name _ _ Ho). reflexivity.
-  - rewrite (chain_ge0 W' HW). destruct (is_name t); reflexivity.
-Qed.
-
-Lemma chain_function W : chain W -> cand_function W 0 = None.
-Proof.
-  intros H. pose proof (chain_plain W H) as HP. destruct H as [o B Ho|t W' Ht HW]; rewrite cand_function_0.
-  - rewrite kw_is_not_keyword by (eapply symbol_not_keyword; exact Ho). exact HP.
-  - destruct (kw_is t s_function); [|exact HP]. rewrite (chain_plain W' HW). reflexivity.
-Qed.
-
-Lemma chain_lparen_at W : chain W -> forall p, (forall q, q < p -> sym_at W q lbrace = false) -> sym_at W p lparen = false.
-Proof.
-  induction 1 as [o B Ho|t W' Ht HW IH]; intros p Hq.
-  - destruct p as [|p]; [exact (lbrace_not_lparen o Ho)|].
-    specialize (Hq 0 (Nat.lt_0_succ p)). unfold sym_at in Hq. cbn [nth_error] in Hq. unfold is_lbrace in Ho. congruence.
-  - destruct p as [|p]; [exact Ht|]. change (sym_at (t :: W') (S p) lparen) with (sym_at W' p lparen).
-    apply IH. intros q Hlt. exact (Hq (S q) (proj1 (Nat.succ_lt_mono q p) Hlt)).
-Qed.
-
-Lemma name_at_not_lbrace W q : name_at W q = true -> sym_at W q lbrace = false.
-Proof. unfold name_at, sym_at. destruct (nth_error W q) as [t|]; [|reflexivity]. apply name_not_symbol. Qed.
-Lemma op_at_not_lbrace W q s : op_at W q s = true -> sym_at W q lbrace = false.
-Proof. unfold op_at, sym_at. destruct (nth_error W q) as [t|]; [|reflexivity]. apply operator_not_symbol. Qed.
-Lemma kw_at_not_lbrace W q s : kw_at W q s = true -> sym_at W q lbrace = false.
-Proof.
-  unfold kw_at, sym_at. destruct (nth_error W q) as [t|]; [|reflexivity]. intros H. apply andb_prop in H as [H _].
-  apply keyword_not_symbol. exact H.
-Qed.
-
-Lemma chain_arrow_nc W : chain W -> arrow_nc W = None.
-Proof.
-  intros H. unfold arrow_nc.
-  destruct (name_at W 0) eqn:E0; [|reflexivity]. destruct (op_at W 1 s_eq) eqn:E1; [|reflexivity]. cbn [andb].
-  destruct (kw_at W 2 s_async) eqn:E2; cbv zeta iota.
-  - assert (E : sym_at W 3 lparen = false).
-    { apply (chain_lparen_at W H). intros q Hq.
-      destruct q as [|[|[|q]]]; [apply name_at_not_lbrace; exact E0 | eapply op_at_not_lbrace; exact E1
-                                 | eapply kw_at_not_lbrace; exact E2 | lia]. }
-    unfold groups_end. rewrite E. reflexivity.
-  - assert (E : sym_at W 2 lparen = false).
-    { apply (chain_lparen_at W H). intros q Hq.
-      destruct q as [|[|q]]; [apply name_at_not_lbrace; exact E0 | eapply op_at_not_lbrace; exact E1 | lia]. }
-    unfold groups_end. rewrite E. reflexivity.
-Qed.
-
-Lemma chain_arrow W : chain W -> cand_arrow W 0 = None.
-Proof.
-  intros H. pose proof (chain_arrow_nc W H) as HP. destruct H as [o B Ho|t W' Ht HW]; rewrite cand_arrow_0.
-  - rewrite kw_is_not_keyword by (eapply symbol_not_keyword; exact Ho). exact HP.
-  - destruct (kw_is t s_const); [|exact HP]. rewrite (chain_arrow_nc W' HW). reflexivity.
-Qed.
-
+(* ---------- no candidate in a clause (no parenthesis before the "{"): chain of GrammarAllProofsCand.v ---------- *)
 Lemma clause_chain cl o B : forallb clause_tok cl = true -> is_lbrace o = true -> chain (cl ++ o :: B).
 Proof.
-  intros Hcl Ho. induction cl as [|t cl IH]; [apply chain_end; exact Ho|].
+  intros Hcl Ho. induction cl as [|t cl IH]; [apply chain_end; left; exact Ho|].
   cbn [forallb] in Hcl. apply andb_prop in Hcl as [Ht Hcl]. cbn [app]. apply chain_cons; [|apply IH; exact Hcl].
   apply clause_tok_plain in Ht. apply plain_inv in Ht. apply Ht.
 Qed.
